@@ -97,7 +97,7 @@ UNITS = {
     "server": {
         "uses": [],
         "preludes": ["shims/core.rs", "shims/bytes.rs", "shims/env.rs", "shims/io.rs", "shims/cursor.rs"],
-        "specs": ["contracts/spec/hv.rs", "contracts/spec/crlf.rs", "contracts/spec/request.rs", "contracts/spec/request_read.rs", "contracts/spec/http.rs", "contracts/spec/lookup.rs", "contracts/spec/cors.rs", "contracts/spec/headers.rs", "contracts/spec/frames.rs", "contracts/spec/app.rs", "contracts/spec/server.rs"],
+        "specs": ["contracts/spec/hv.rs", "contracts/spec/crlf.rs", "contracts/spec/request.rs", "contracts/spec/lines.rs", "contracts/spec/request_read.rs", "contracts/spec/http.rs", "contracts/spec/lookup.rs", "contracts/spec/cors.rs", "contracts/spec/headers.rs", "contracts/spec/frames.rs", "contracts/spec/app.rs", "contracts/spec/server.rs"],
         "sources": [
             SYMBOL_SRC,
             ("src/http/mod.rs", ["struct:Version", "const:VERSION"]),
@@ -121,7 +121,7 @@ UNITS = {
     },
     "request_parse": {
         "preludes": ["shims/core.rs", "shims/bytes.rs", "shims/io.rs", "shims/cursor.rs"],
-        "specs": ["contracts/spec/hv.rs", "contracts/spec/lookup.rs", "contracts/spec/crlf.rs", "contracts/spec/request.rs", "contracts/spec/request_read.rs", "contracts/spec/request_gen.rs", "contracts/spec/request_thm.rs"],
+        "specs": ["contracts/spec/hv.rs", "contracts/spec/lookup.rs", "contracts/spec/crlf.rs", "contracts/spec/request.rs", "contracts/spec/lines.rs", "contracts/spec/request_read.rs", "contracts/spec/request_gen.rs", "contracts/spec/request_thm.rs"],
         "sources": [
             SYMBOL_SRC,
             ("src/http/mod.rs", ["struct:Version", "const:VERSION", "struct:HTTP", "fn:HTTP::version_list"]),
@@ -265,7 +265,7 @@ UNITS = {
     },
     "response_parse": {
         "preludes": ["shims/core.rs", "shims/bytes.rs", "shims/cursor.rs"],
-        "specs": ["contracts/spec/hv.rs", "contracts/spec/frames.rs", "contracts/spec/crlf.rs", "contracts/spec/request.rs", "contracts/spec/response_parse.rs"],
+        "specs": ["contracts/spec/hv.rs", "contracts/spec/frames.rs", "contracts/spec/crlf.rs", "contracts/spec/request.rs", "contracts/spec/response_parse.rs", "contracts/spec/lines.rs", "contracts/spec/response_read.rs", "contracts/spec/http.rs", "contracts/spec/response_thm.rs"],
         "sources": [
             SYMBOL_SRC,
             ("src/http/mod.rs", ["struct:Version", "const:VERSION", "struct:HTTP", "fn:HTTP::version_list:assume"]),
@@ -411,8 +411,8 @@ PROPS = {
             "stated on the bytes rather than derived: the UTF-8 bytes of a header line hold no 0x0A (follows from 'no control character' for real UTF-8)",
             "StringExt::filter_ascii_control_characters is assumed to be trim(remove ASCII control characters) (its closure argument is outside the extractor's subset); conformance-tested in the thorough tier",
             "str::trim / split_once / String::from_utf8 / Cursor::read_until are the assumed std contracts of shims/core.rs and shims/cursor.rs; UTF-8 encode/decode facts are vstd's PROVED lemmas (vstd::utf8)",
-            "the boundary parameter as browsers send it (Content-Type: ...; boundary=X with '--X' / '--X--' delimiter lines): is_delim accepts these forms (proved postcondition of is_delimiter); FormMultipartData::extract_boundary is proved panic-free but its result is not specified (a quoted or parameter-followed boundary is returned verbatim)",
-            "the echo controller /form-multipart-enctype-post-method is not under contract; it is exercised by the e2e falsifier (C04 cases)",
+            "the boundary parameter as browsers send it (Content-Type: ...; boundary=X with '--X' / '--X--' delimiter lines): is_delim accepts these forms (proved postcondition of is_delimiter); FormMultipartData::extract_boundary is proved to return everything after the first 'boundary=' verbatim (a quoted or parameter-followed boundary is therefore returned with its quotes / parameters)",
+            "the echo controller /form-multipart-enctype-post-method is proved panic-free and frame-preserving (unit forms); the TEXT it echoes is not specified",
         ],
     },
     "C20": {
@@ -443,7 +443,7 @@ PROPS = {
         "assumptions": [
             "fs_allowed(path) := path == cwd ++ rel with rel starting with '/' and holding no '..' segment, or the resolution of a symbolic link found under the root (the property's exemption)",
             "nothing is assumed about the path the url-build-parse dependency returns: every path handed to a file-system shim is checked by the code itself",
-            "functions not under contract that touch the file system: IndexController/NotFoundController (fixed file names index.html / 404.html), MimeType::detect_mime_type (reads no file)",
+            "every controller (both entry points) is under contract; IndexController / NotFoundController read the fixed names index.html / 404.html (plain names, resolved against the served directory)",
         ],
     },
     "C13": {
@@ -465,7 +465,7 @@ PROPS = {
             "Response::generate_response / postcondition / head computed from the response alone; body dropped for HEAD/OPTIONS after Content-Length was computed from it",
             "Cors::allow_all / postcondition / preflight grants on OPTIONS",
         ],
-        "assumptions": ["StaticResourceController::process (status 204 for OPTIONS, same content ranges as GET) is proved panic-free and contained but has no functional postcondition yet"],
+        "assumptions": ["StaticResourceController::process: the status of a successful answer is proved to depend on the method and the presence of a Range header only (OPTIONS 204, Range 206, else 200) and the parts come from process_static_resources, which does not look at the method"],
     },
     "C14": {
         "units": ["request_parse", "request_gen"],
@@ -532,7 +532,7 @@ PROPS = {
         ],
         "assumptions": [
             "the process environment is what bootstrap() wrote (precedence of sources is C12, not covered): grants are proved relative to the values env::var returns",
-            "Request::get_header returns the first header matching up to letter case (assumed here, proved in unit request_lookup)",
+            "Request::get_header returns the first header matching up to letter case (assumed here, proved in unit request_parse)",
         ],
     },
     "C03": {
